@@ -10,6 +10,9 @@
 //   hb:O:N                O->set_heart_beat(N)
 //   mk:O:FILE             clone FILE and register it as O
 //   say:TEXT              write TEXT to this_player()
+#ifndef MASTER
+#define MASTER master()
+#endif
 mapping scripts = ([ ]);
 mapping handles = ([ ]);
 int hbcount = 0;
@@ -119,6 +122,18 @@ void do_op(string op, string ctx) {
     write(make_msg(to_int(f[1]), to_int(f[2]), f[3]));
     vlog("\"e\":\"WrEnd\",\"u\":" + jq(me()) + ",\"m\":" + to_int(f[1]));
     break;
+  case "pol":      // pol:KEY:VALUE  set a master policy (numbers as ints)
+    if (f[2] == "0") MASTER->set_policy(f[1], 0);
+    else if (to_int(f[2]) != 0) MASTER->set_policy(f[1], to_int(f[2]));
+    else MASTER->set_policy(f[1], f[2]);
+    break;
+  case "sreset":   // sreset:O:N  schedule reset() of O in N seconds
+    o = ob_of(f[1]); if (o) set_reset(o, to_int(f[2]));
+    break;
+  case "quit":
+    vlog("\"e\":\"Quit\",\"u\":" + jq(me()));
+    remove_interactive(this_object());
+    break;
   case "clr":
     map_delete(scripts, f[1]);
     break;
@@ -165,4 +180,5 @@ void gc_cb(string s) {
 }
 void it_cb(string s) {
   vlog("\"e\":\"Cmd\",\"u\":" + jq(me()) + ",\"hex\":" + jq(to_hex(s)) + ",\"mode\":\"input_to\"");
+  if (scripts["inputto"]) do_ops(scripts["inputto"], "input_to");
 }
